@@ -45,8 +45,10 @@ import (
 //      (encode.go:599-601, 653-659): it is written verbatim and hence read back without its quotes. Such
 //      strings do not denote themselves and are not generated.
 //   R2 a string of the form <...> is an HTML string for the encoder (encode.go:30, 664-668) and written
-//      verbatim; the token grammar (dot.bnf, _html_lit) accepts one level of nested <tag>s and no NUL.
-//      Only such strings are generated in the <...> form.
+//      verbatim; the token grammar (dot.bnf, _html_lit, as generated) accepts one level of nested,
+//      non-empty <tag>s and no NUL. Only such strings are generated in the <...> form; a quoted
+//      "<...>" keeps its quotes on decoding by design (decode.go: unquoteID), so other <...> strings
+//      have no representation that reads back as themselves.
 //   R3 compass points are written verbatim (encode.go:323-332) and must be one of the ten DOT compass
 //      points (encode.go:40-43 "compass corresponds to DOT compass point"); a port without a compass point
 //      must not itself spell a compass point (astx.go:250-267, the DOT grammar's own ambiguity).
@@ -424,25 +426,27 @@ func dotRepresentable(s string) bool {
 		}
 	}
 	if len(s) >= 2 && s[0] == '<' && s[len(s)-1] == '>' { // R2
+		// what the generated lexer accepts as an HTML string: characters
+		// other than NUL, '<', '>' and one level of NON-EMPTY <tag>s (dot.bnf
+		// reads as if <> were allowed inside; the generated automaton rejects
+		// "<<>>", "<=<>>", ...: see DESIGN 11.0)
 		in := s[1 : len(s)-1]
-		depth := 0
 		for i := 0; i < len(in); i++ {
 			switch in[i] {
-			case 0:
+			case 0, '>':
 				return false
 			case '<':
-				depth++
-				if depth > 1 {
+				j := i + 1
+				for j < len(in) && in[j] != 0 && in[j] != '<' && in[j] != '>' {
+					j++
+				}
+				if j == i+1 || j == len(in) || in[j] != '>' {
 					return false
 				}
-			case '>':
-				depth--
-				if depth < 0 {
-					return false
-				}
+				i = j
 			}
 		}
-		return depth == 0
+		return true
 	}
 	return true
 }
